@@ -34,6 +34,9 @@
        jitter class of MakeUniform (the expected values are those of the exact mesh, compared with a wider tolerance)
      * all blocks of an assembly have the same cross-section area (atoms of a block = N * height * area)
      * queries are stated for windows inside the assembly, 0 <= lo < hi <= top
+     * thin-but-real overlaps ("slivers", e.g. 1/1200 of a cell, far above the 1e-10 relative filter) are exact cases of the
+       same rules: the sliver configurations use H = 2400 with source points {1200} and target points {1199, 1201}, so that
+       PeakIsLargestOverlapped and every other law are decided by TLC on them and compared on the real code at rtol 1e-9
    Exploration bounds (not semantics): at most one Snap, explored from the profiles in SnapProfiles; after a Snap only the
    mass-conserving variant (flag True) is re-meshed further; Solve / MapBack only on histories without a Snap; fuel layouts
    are enumerated only where they matter (Snap), else the assembly is a fuel assembly whose first block is the fuel block.
@@ -43,6 +46,8 @@
 EXTENDS Integers, Sequences, FiniteSets, TLC, Json, SequencesExt, FiniteSetsExt, Rational
 
 CONSTANTS H,             \* height of the initial assembly in mesh units
+          SrcPts,        \* interior points the initial mesh may use   (1..H-1 in the plain configurations)
+          DstPts,        \* interior points a target mesh may use      (1..H-1 in the plain configurations)
           Profiles,      \* value profiles of the initial assembly (see Slot)
           FuelChoices,   \* c: asmFuel = (c % 2 = 1), fuel block index = c \div 2
           SolveProfiles, \* profiles a solver may write on the converted assembly
@@ -73,7 +78,10 @@ Ht(a, i)   == a.tops[i] - Bot(a, i)
 Top(a)     == IF K(a) = 0 THEN 0 ELSE a.tops[K(a)]
 SortedSeq(S) == SetToSortSeq(S, LAMBDA x, y : x < y)
 \* all meshes (strictly increasing tops) that span 0..top
-Meshes(top) == {SortedSeq(S \cup {top}) : S \in SUBSET (1..(top - 1))}
+Meshes(top, pts) == {SortedSeq(S \cup {top}) : S \in SUBSET (pts \cap (1..(top - 1)))}
+\* elevations at which the queries are evaluated: every point any mesh can have (all of 0..H in the plain configurations; the
+\* sliver configurations use H in the thousands with a handful of admissible points)
+QPts(a) == ({0, H} \cup SrcPts \cup DstPts \cup {a.tops[i] : i \in 1..K(a)}) \cap (0..Top(a))
 
 (* ---------------- Assembly.getBlocksBetweenElevations / getBlockAtElevation ---------------- *)
 Touched(a, lo, hi) == SelectSeq(Idx(K(a)), LAMBDA i : a.tops[i] >= lo /\ Bot(a, i) <= hi)
@@ -124,7 +132,7 @@ SnapTo(a, t, flag) ==
     [a EXCEPT !.tops = t,
               !.N = [i \in 1..K(a) |-> [n \in Nuc |->
                         IF Conserved(a, i, n, flag) THEN RMul(a.N[i][n], RFrac(Ht(a, i), NewHt(t, i))) ELSE a.N[i][n]]]]
-SnapMeshes(k, top) == {SortedSeq(S) : S \in {T \in SUBSET (1..top) : Cardinality(T) = k}}
+SnapMeshes(k, top) == {SortedSeq(S) : S \in {T \in SUBSET (SrcPts \cup {top}) : Cardinality(T) = k}}
 
 (* ---------------- value profiles ---------------- *)
 Ind(c) == IF c THEN 1 ELSE 0
@@ -157,7 +165,7 @@ OverIdx(a, lo, hi) == {x[1] : x \in {Between(a, lo, hi)[j] : j \in 1..Len(Betwee
 
 (* ---------------- behaviour ---------------- *)
 \* fuel layouts only matter for Snap: they are enumerated for the profiles Snap is explored from, else fixed (fuel assembly, block 1)
-Init == /\ \E m \in Meshes(H), q \in Profiles, c \in FuelChoices \cup {3} :
+Init == /\ \E m \in Meshes(H, SrcPts), q \in Profiles, c \in FuelChoices \cup {3} :
              /\ (q \in SnapProfiles /\ "Snap" \in Ops) => c \in FuelChoices
              /\ ~(q \in SnapProfiles /\ "Snap" \in Ops) => c = 3
              /\ c \div 2 <= Len(m)
@@ -202,7 +210,7 @@ SnapRefused(t, flag) ==      \* one block: self[-1].p.topIndex == 0  =>  warning
 
 \* (the guards are repeated in front of the quantifiers so that TLC does not enumerate meshes in states where the action is disabled)
 \* exploration bound, not semantics: after a Snap only the mass-conserving variant is re-meshed further
-DoMakeUniform == stage = "orig" /\ "MakeUniform" \in Ops /\ (IF pre = NoAsm THEN TRUE ELSE hist[Len(hist)].flag = "true") /\ \E m \in Meshes(Top(src)), j \in Jitters : MakeUniform(m, j)
+DoMakeUniform == stage = "orig" /\ "MakeUniform" \in Ops /\ (IF pre = NoAsm THEN TRUE ELSE hist[Len(hist)].flag = "true") /\ \E m \in Meshes(Top(src), DstPts), j \in Jitters : MakeUniform(m, j)
 DoSolve       == stage = "uniform" /\ \E q \in SolveProfiles : Solve(q)
 CanSnap       == "Snap" \in Ops /\ stage = "orig" /\ pre = NoAsm /\ ini.prof \in SnapProfiles
 DoSnap        == CanSnap /\ K(src) >= 2 /\ \E t \in SnapMeshes(K(src), H), f \in SnapFlags : Snap(t, f)
@@ -269,7 +277,7 @@ RoundTripRestoresTotals ==
 
 \* "The blocks reported between two elevations partition the interval: positive overlaps that sum to its length"
 PartitionOf(a) ==
-    \A lo \in 0..Top(a), hi \in 0..Top(a) : lo < hi =>
+    \A lo \in QPts(a), hi \in QPts(a) : lo < hi =>
         LET r == Between(a, lo, hi) IN
         /\ ~BetweenRaises(a, lo, hi)
         /\ Len(r) >= 1
@@ -281,7 +289,7 @@ PartitionOf(a) ==
 \* (a mesh only changes in stage "orig" (Snap) and when the converted assembly is made: checked there, once per mesh)
 BetweenPartitions == (stage = "orig" => PartitionOf(src)) /\ (stage = "uniform" => PartitionOf(dst))
 BlockAtOf(a) == /\ BlockAt(a, 0) = 0
-                /\ \A e \in 1..Top(a) : LET i == BlockAt(a, e) IN i \in 1..K(a) /\ Bot(a, i) < e /\ e <= a.tops[i]
+                /\ \A e \in QPts(a) \ {0} : LET i == BlockAt(a, e) IN i \in 1..K(a) /\ Bot(a, i) < e /\ e <= a.tops[i]
 BlockAtContains == (stage = "orig" => BlockAtOf(src)) /\ (stage = "uniform" => BlockAtOf(dst))
 
 \* Assembly.setBlockMesh: what is conserved by which flag
@@ -304,9 +312,9 @@ SnapLaw ==
 AObs(a) == [tops |-> a.tops, fuel |-> a.fuel, asmFuel |-> a.asmFuel, n |-> a.N, p |-> a.P,
             atoms |-> [n \in Nuc |-> Atoms(a, n)],
             tot |-> [p \in {"I", "IA"} |-> [g \in 1..Arity(p) |-> Tot(a, p, g)]]]
-Pairs(a) == {pr \in (0..Top(a)) \X (1..Top(a)) : pr[1] < pr[2]}
+Pairs(a) == {pr \in QPts(a) \X QPts(a) : pr[1] < pr[2]}
 Queries(a) == [between |-> SetToSeq({[lo |-> pr[1], hi |-> pr[2], r |-> Between(a, pr[1], pr[2])] : pr \in Pairs(a)}),
-               at |-> [e \in 1..(Top(a) + 1) |-> BlockAt(a, e - 1)]]
+               at |-> [j \in 1..Cardinality(QPts(a)) |-> <<SortedSeq(QPts(a))[j], BlockAt(a, SortedSeq(QPts(a))[j])>>]]
 Obs == [src |-> AObs(src), dst |-> AObs(dst),
         q |-> IF stage = "orig" THEN Queries(src) ELSE IF stage = "uniform" THEN Queries(dst) ELSE [between |-> <<>>, at |-> <<>>]]
 =========================================================================================================
